@@ -1316,3 +1316,33 @@ def check_response_consults_infer(R, tonic, rule):
             byp.append(path_[-1])
     R.check(not byp, rule, 'response-always-consults-infer', site(rs, byp[0]) if byp else site(rs, ib),
             'every Direction::Response path of %s() goes through infer_grpc_status(trailers, http status): %d path(s) bypass it' % (rs.path.split('::')[-1], len(byp)))
+
+
+def check_recovered_status(R, tonic, rule, fields):
+    """Status::from_error / try_from_error: the Status found in a source chain is copied with the given fields (Status is not Clone;
+    only `source` is left behind)"""
+    fs = tonic.body('status::find_status_in_source_chain')
+    R.saw(fs)
+    ffs = family(tonic, fs)   # the rungs of the chain walk may be functions of their own (named, or listed in a table)
+    ags = [(m_,) + x for m_ in ffs for x in mirlib.aggregates(m_, 'status::Status') if x[3].get('kind') == 'adt']
+    ctor = [(m_, bb, t) for m_, bb, t in fam_calls(ffs, pat='status::Status::') if t.get('name') in ('new', 'with_metadata', 'with_details', 'with_details_and_metadata')]
+    nfa = 0
+    # the downcast to Status itself (other downcasts in the chain walk — TimeoutExpired, h2/hyper errors — build their own statuses)
+    is_dc = lambda x: is_call(x, name='downcast_ref') and any(re.search(r'(^|::)Status$', g_) for g_ in (x[4].get('ga') or []))
+    for agm in ags:
+        fs_, ag = agm[0], agm[1:]
+        if term_contains(fs_.origin(ag[4][ag[3]['fields'].index('code')]), is_dc):
+            for fname in fields:
+                v = fs_.origin(ag[4][ag[3]['fields'].index(fname)])
+                nfa += 1
+                R.check(fname in [x[2] for x in find_terms(v, lambda x: x and x[0] == 'field')], rule, 'recovered:%s' % fname, site(fs_, ag[0], ag[1]), 'field %s of the recovered status comes from the found status: %s' % (fname, show(v)[:80]))
+    for fs_, bb, t in ctor:
+        if not any(term_contains(fs_.origin(a_), is_dc) for a_ in t['args']):
+            continue
+        got = set()
+        for a_ in t['args']:
+            got.update(x[2] for x in find_terms(fs_.origin(a_), lambda x: x and x[0] == 'field'))
+        for fname in fields:
+            nfa += 1
+            R.check(fname in got, rule, 'recovered:%s' % fname, site(fs_, bb), 'Status::%s(..) is given the found status\'s %s: %r (arguments use %r)' % (t['name'], fname, fname in got, sorted(got)))
+    R.floor(rule, 'fields of the recovered status', nfa, len(fields))
